@@ -5,6 +5,7 @@ from .. import build, gen, monitors, oracle as O
 from . import common as K
 
 ID = "C03"
+REACH_TARGETS = [('EKF.process_jacobian', 'formak.python:ExtendedKalmanFilter.process_jacobian'), ('EKF.control_jacobian', 'formak.python:ExtendedKalmanFilter.control_jacobian'), ('EKF.sensor_jacobian', 'formak.python:ExtendedKalmanFilter.sensor_jacobian'), ('EKF._construct_sensors', 'formak.python:ExtendedKalmanFilter._construct_sensors')]
 LEVEL = "exploration"
 RULE = ("random filter definitions biased to rectangular shapes (1-5 states, 0-3 controls, 0-3 "
         "calibrations, 1-3 sensors x 1-4 readings, calibration inside sensor expressions) x named "
